@@ -5,6 +5,7 @@ package main
 // independent reader, compared with Model.Pkg by coqc and judged by the property oracles.
 
 import (
+	"strconv"
 	"archive/zip"
 	"bytes"
 	"crypto/sha1"
@@ -52,6 +53,10 @@ type hop struct {
 	WMM     int      `json:"wmm,omitempty"`
 	HMM     int      `json:"hmm,omitempty"`
 	Keep    bool     `json:"keep,omitempty"`
+	WUm     int      `json:"w_um,omitempty"`   // requested width / height of a body picture in micrometres (0 = not given)
+	HUm     int      `json:"h_um,omitempty"`
+	HasCfg  bool     `json:"has_cfg,omitempty"`
+	CfgID   int      `json:"cfg_id,omitempty"` // > 0: the caller's configuration object with this number (shared between additions)
 	Imgs    []imgArg `json:"imgs,omitempty"`
 	ToFile  bool     `json:"to_file,omitempty"`
 }
@@ -386,10 +391,51 @@ type docState struct {
 	extents  map[int][2]int64  // atom -> expected extent (cx, cy) for images added with a size config
 	ptexts   []string          // placeholder / plain paragraph texts added (for text presence)
 	phs      []int             // image placeholders present in the body
+	extIn    map[int]extIn     // atom -> pixel size and configuration the body picture was added with
+}
+
+// extIn: what decides the displayed size of a body picture
+type extIn struct {
+	PW, PH   int
+	HasCfg   bool
+	WUm, HUm int
+	Keep     bool
+}
+
+// casePool: the caller's shared size configurations of the history that is running (by CfgID)
+var casePool = map[int]*document.ImageConfig{}
+
+// extObs: (inputs, observed extent) of body pictures found in saved documents, for the correspondence of M-EXTENT
+var extObs []string
+var extSeen = map[string]bool{}
+
+// expectedExtent: the sizing rule in exact arithmetic; ok = false when the rule leaves the case open (one dimension
+// without the aspect-ratio flag)
+func expectedExtent(in extIn) (cx, cy int64, ok bool) {
+	dx, dy := int64(in.PW)*9525, int64(in.PH)*9525
+	if !in.HasCfg {
+		return dx, dy, true
+	}
+	switch {
+	case in.WUm > 0 && in.HUm > 0:
+		return int64(in.WUm) * 36, int64(in.HUm) * 36, true
+	case in.WUm > 0 && in.Keep:
+		cx = int64(in.WUm) * 36
+		return cx, cx * int64(in.PH) / int64(in.PW), true
+	case in.HUm > 0 && in.Keep:
+		cy = int64(in.HUm) * 36
+		return cy * int64(in.PW) / int64(in.PH), cy, true
+	case in.WUm <= 0 && in.HUm <= 0:
+		return dx, dy, true
+	}
+	return dx, dy, false
 }
 
 func (s *docState) clone(d *document.Document) *docState {
-	n := &docState{doc: d, images: append([]int{}, s.images...), hf: map[string]string{}, foreign: s.foreign, touched: map[string]bool{}, frels: s.frels, extents: map[int][2]int64{}}
+	n := &docState{doc: d, images: append([]int{}, s.images...), hf: map[string]string{}, foreign: s.foreign, touched: map[string]bool{}, frels: s.frels, extents: map[int][2]int64{}, extIn: map[int]extIn{}}
+	for k, v := range s.extIn {
+		n.extIn[k] = v
+	}
 	for k, v := range s.hf {
 		n.hf[k] = v
 	}
@@ -438,8 +484,18 @@ func applyHop(regs []*docState, h hop, tmp string) (obs *saveObs, err error) {
 		data := imageBytes(h.Fmt, h.Atom)
 		w, ht := imgDims(h.Atom)
 		var cfg *document.ImageConfig
-		if h.WMM > 0 || h.HMM > 0 {
-			cfg = &document.ImageConfig{Size: &document.ImageSize{Width: float64(h.WMM), Height: float64(h.HMM), KeepAspectRatio: h.Keep}}
+		if h.HasCfg {
+			mk := func() *document.ImageConfig {
+				return &document.ImageConfig{Size: &document.ImageSize{Width: float64(h.WUm) / 1000, Height: float64(h.HUm) / 1000, KeepAspectRatio: h.Keep}}
+			}
+			if h.CfgID > 0 {
+				if casePool[h.CfgID] == nil {
+					casePool[h.CfgID] = mk()
+				}
+				cfg = casePool[h.CfgID]
+			} else {
+				cfg = mk()
+			}
 		}
 		if h.Cell {
 			if s.table == nil {
@@ -456,6 +512,9 @@ func applyHop(regs []*docState, h hop, tmp string) (obs *saveObs, err error) {
 		} else {
 			if _, e := s.doc.AddImageFromData(data, h.FName, fmtOf[h.Fmt], w, ht, cfg); e != nil {
 				return nil, e
+			}
+			if s.extIn != nil {
+				s.extIn[h.Atom] = extIn{PW: w, PH: ht, HasCfg: h.HasCfg, WUm: h.WUm, HUm: h.HUm, Keep: h.Keep}
 			}
 		}
 		s.images = append(s.images, h.Atom)
@@ -682,6 +741,31 @@ func checkC10(s *docState, v *PkgView) []string {
 	for _, d := range v.Doc.find("drawing") {
 		ext := d.find("extent")
 		aext := d.find("ext")
+		if bl := d.find("blip"); len(bl) == 1 && len(ext) == 1 {
+			if rs := docRels[bl[0].Attrs["embed"]]; len(rs) == 1 {
+				if data, ok := v.Parts[resolveTarget("word/_rels/document.xml.rels", rs[0].Target)]; ok {
+					if in, known := s.extIn[atomOfBytes(data)]; known {
+						cx, _ := strconv.ParseInt(ext[0].Attrs["cx"], 10, 64)
+						cy, _ := strconv.ParseInt(ext[0].Attrs["cy"], 10, 64)
+						wx, wy, decided := expectedExtent(in)
+						// the derived dimension follows the given one as displayed (floating point, truncated)
+						if in.HasCfg && in.Keep && in.WUm > 0 && in.HUm <= 0 && abs64(cx-wx) <= 1 {
+							wx, wy = cx, cx*int64(in.PH)/int64(in.PW)
+						} else if in.HasCfg && in.Keep && in.HUm > 0 && in.WUm <= 0 && abs64(cy-wy) <= 1 {
+							wx, wy = cy*int64(in.PW)/int64(in.PH), cy
+						}
+						if decided && (abs64(cx-wx) > 1 || abs64(cy-wy) > 1) {
+							bad = append(bad, fmt.Sprintf("extent_rule: picture of %dx%d pixels added with %s shows %d x %d EMU, the sizing rule gives %d x %d", in.PW, in.PH, in.describe(), cx, cy, wx, wy))
+						}
+						key := fmt.Sprintf("mkCase %d %d %s %d %d", in.PW, in.PH, in.coq(), cx, cy)
+						if !extSeen[key] {
+							extSeen[key] = true
+							extObs = append(extObs, key)
+						}
+					}
+				}
+			}
+		}
 		if len(ext) == 1 && len(aext) >= 1 {
 			last := aext[len(aext)-1]
 			if ext[0].Attrs["cx"] != last.Attrs["cx"] || ext[0].Attrs["cy"] != last.Attrs["cy"] {
@@ -690,6 +774,27 @@ func checkC10(s *docState, v *PkgView) []string {
 		}
 	}
 	return bad
+}
+
+func abs64(x int64) int64 {
+	if x < 0 {
+		return -x
+	}
+	return x
+}
+
+func (in extIn) describe() string {
+	if !in.HasCfg {
+		return "no size configuration"
+	}
+	return fmt.Sprintf("width %.3f mm, height %.3f mm, keep aspect ratio %v", float64(in.WUm)/1000, float64(in.HUm)/1000, in.Keep)
+}
+
+func (in extIn) coq() string {
+	if !in.HasCfg {
+		return "None"
+	}
+	return fmt.Sprintf("(Some (mkSize %d %d %s))", in.WUm, in.HUm, cBool(in.Keep))
 }
 
 // xmlCharNorm: characters that XML 1.0 cannot represent are written as U+FFFD by encoding/xml
@@ -811,8 +916,33 @@ func genHistory(r *rng, prop string) (foreign *foreignPkg, ops []hop) {
 			if r.chance(25) {
 				h.Cell = true
 				h.WMM = r.rangeI(0, 60)
-			} else if r.chance(40) {
-				h.WMM, h.HMM, h.Keep = r.rangeI(0, 120), r.rangeI(0, 120), r.chance(50)
+			} else if r.chance(55) {
+				// a size configuration: of this call alone, or one of the caller's shared objects (the same values for
+				// every addition that uses it)
+				var prev []hop
+				for _, o := range ops {
+					if o.Kind == "AddImage" && o.CfgID > 0 {
+						prev = append(prev, o)
+					}
+				}
+				if len(prev) > 0 && r.chance(55) {
+					o := prev[r.intn(len(prev))]
+					h.HasCfg, h.CfgID, h.WUm, h.HUm, h.Keep = true, o.CfgID, o.WUm, o.HUm, o.Keep
+				} else {
+					dim := func() int {
+						switch r.intn(4) {
+						case 0:
+							return 0
+						case 1:
+							return r.rangeI(1, 120) * 1000
+						}
+						return r.rangeI(1000, 120000)
+					}
+					h.HasCfg, h.WUm, h.HUm, h.Keep = true, dim(), dim(), r.chance(60)
+					if r.chance(55) {
+						h.CfgID = 1 + len(prev)
+					}
+				}
 			}
 			ops = append(ops, h)
 		case 1:
@@ -904,7 +1034,8 @@ func runPkgCase(prop string, c pkgCase, tmp string) (coq string, fails []OracleF
 	regs := make([]*docState, 3)
 	initView := "None"
 	var doc *document.Document
-	st := &docState{hf: map[string]string{}, touched: map[string]bool{}, extents: map[int][2]int64{}}
+	st := &docState{hf: map[string]string{}, touched: map[string]bool{}, extents: map[int][2]int64{}, extIn: map[int]extIn{}}
+	casePool = map[int]*document.ImageConfig{}
 	if c.Foreign != nil {
 		raw := c.Foreign.build()
 		fv, err := readPackage(raw)
@@ -1062,6 +1193,10 @@ func runPkg(prop string, cfg *runCfg) error {
 	}
 	res.DistinctNontrivial = dist.n()
 	res.Shards = writeShards(cfg.out, "pkgcases", "From Coq Require Import ZArith NArith List.\nFrom WZ Require Import Model.Pkg Corr.PkgCorr.", "case", "mismatches", coqCases, 40)
+	if prop == "C10" {
+		res.Shards = append(res.Shards, writeShards(cfg.out, "extcases", "From Coq Require Import ZArith List Bool String.\nFrom WZ Require Import Model.Extent Corr.ExtentCorr.", "case", "mismatches", extObs, 400)...)
+		res.Histogram["extent observations (distinct)"] = len(extObs)
+	}
 	res.write(cfg.out)
 	return nil
 }
